@@ -13,7 +13,7 @@
    Known-defect switches (DESIGN.md section 5.3): each selects the behaviour of the code as it is now vs. another
    variant.  After the fix: commits of this round the code corresponds to
        WakeAfterSpawn = TRUE (D3), KeepRefs = TRUE (D1), SafeFail = TRUE (D12/D13), CancelWakes = TRUE (D17),
-       JoinWatches = TRUE (D16/D22).
+       JoinWatches = TRUE (D16/D22), CloseReaderOnKill = TRUE (D21), ExitChecked = TRUE (D15).
    Open findings are windows recorded in the ghost variable `hit`: properties are checked for behaviours with
    hit = {} ("no other violation"), and each open finding is reproduced by asking TLC to reach its window.
 
@@ -32,6 +32,7 @@ CONSTANTS Pids,          \* pool of fresh process ids (respawn consumes them)
                          \*   {"none", "shutdown_wait", "shutdown_nowait", "kill", "del", "exit"}
           InitFails,     \* workers whose initializer raises
           WakeAfterSpawn, KeepRefs, SafeFail, CancelWakes,
+          ExitChecked,        \* D15: the manager looks at the exit status of a worker that announced a clean exit
           CloseReaderOnKill,  \* D21: kill_workers() closes the parent's read end of the call queue
           JoinWatches    \* D16/D22: the final join watches the workers' sentinels and kills the others when one died abruptly
 
@@ -166,6 +167,9 @@ begin
  mpop:       await mgmt = "free"; procs := procs \ {msg[2]};
  mrel:       exitLock[msg[2]] := 1;
  mjoin:      await Dead(msg[2]);
+             \* D15: a worker that announced a clean exit but did not end with status 0 died abruptly while leaving
+             \* (possibly holding the result-queue write lock): the pool is broken
+             if ExitChecked /\ alive[msg[2]] = "dead" then msg := <<"broken", 0>>; goto mbflag; end if;
  mdecide:    if (Cardinality(pending) > Cardinality(running) \/ Cardinality(running) > Cardinality(procs)) then
                 if ~execAlive then hit := hit \cup {"D2"};
                 elsif Cardinality(procs) < MaxW then
@@ -330,7 +334,7 @@ begin
           alive[p] := "dead"; crashes := crashes + 1;
           hit := hit \cup (IF pc[p] = "wsend2" /\ holding[p] # 0 /\ Kind[holding[p]] = "big" THEN {"D7"} ELSE {})
                      \cup (IF mgmt = p THEN {"D14"} ELSE {})
-                     \cup (IF pc[p] = "wann3" THEN {"D15"} ELSE {})
+                     \cup (IF pc[p] = "wann3" /\ ~ExitChecked THEN {"D15"} ELSE {})
                      \cup (IF pc["M"] \in {"mspend", "mj1", "mj2", "mj3", "mj4", "mj5l", "mj5", "mj5k"} /\ ~brokenF /\ ~JoinWatches THEN {"D16"} ELSE {});
        end with;
      end while;
@@ -997,13 +1001,17 @@ mrel == /\ pc["M"] = "mrel"
 
 mjoin == /\ pc["M"] = "mjoin"
          /\ Dead(msg[2])
-         /\ pc' = [pc EXCEPT !["M"] = "mdecide"]
+         /\ IF ExitChecked /\ alive[msg[2]] = "dead"
+               THEN /\ msg' = <<"broken", 0>>
+                    /\ pc' = [pc EXCEPT !["M"] = "mbflag"]
+               ELSE /\ pc' = [pc EXCEPT !["M"] = "mdecide"]
+                    /\ msg' = msg
          /\ UNCHANGED << shutdownF, brokenF, killF, execAlive, refsDropped, 
                          globalExit, pending, fut, workIds, running, sem, buf, 
                          pipe, cqClosed, rdClosed, rq, wake, wkClosed, procs, 
                          alive, holding, exitLock, announced, rlock, wlock, 
                          mgmt, shut, mgrStarted, mgr, unew, mnew, watch, ready, 
-                         msg, cur, nStop, nSent, crashes, timeouts, cancels, 
+                         cur, nStop, nSent, crashes, timeouts, cancels, 
                          execCount, cancelOK, hit, userDone, fop, ut, fobj, 
                          item >>
 
@@ -1826,7 +1834,7 @@ e0 == /\ pc["E"] = "e0"
                       /\ crashes' = crashes + 1
                       /\ hit' = (hit \cup (IF pc[p] = "wsend2" /\ holding[p] # 0 /\ Kind[holding[p]] = "big" THEN {"D7"} ELSE {})
                                      \cup (IF mgmt = p THEN {"D14"} ELSE {})
-                                     \cup (IF pc[p] = "wann3" THEN {"D15"} ELSE {})
+                                     \cup (IF pc[p] = "wann3" /\ ~ExitChecked THEN {"D15"} ELSE {})
                                      \cup (IF pc["M"] \in {"mspend", "mj1", "mj2", "mj3", "mj4", "mj5l", "mj5", "mj5k"} /\ ~brokenF /\ ~JoinWatches THEN {"D16"} ELSE {}))
                  /\ pc' = [pc EXCEPT !["E"] = "e0"]
             ELSE /\ pc' = [pc EXCEPT !["E"] = "Done"]
